@@ -206,3 +206,88 @@ func spareCopy(g orb.Geometry) (orb.Geometry, func() bool) {
 	before := fmt.Sprint(fulls...)
 	return out, func() bool { return fmt.Sprint(fulls...) == before }
 }
+
+// sharedBuffer returns a copy of g whose point slices are consecutive sections of one array, each with capacity
+// reaching into the following ones (the layout a caller gets by carving geometries out of one coordinate
+// buffer). A function that appends to one part overwrites the start of the next.
+func sharedBuffer(g orb.Geometry) orb.Geometry {
+	n := 0
+	var count func(g orb.Geometry)
+	count = func(g orb.Geometry) {
+		switch v := g.(type) {
+		case orb.MultiPoint:
+			n += len(v)
+		case orb.LineString:
+			n += len(v)
+		case orb.Ring:
+			n += len(v)
+		case orb.MultiLineString:
+			for _, l := range v {
+				n += len(l)
+			}
+		case orb.Polygon:
+			for _, l := range v {
+				n += len(l)
+			}
+		case orb.MultiPolygon:
+			for _, p := range v {
+				for _, l := range p {
+					n += len(l)
+				}
+			}
+		case orb.Collection:
+			for _, m := range v {
+				count(m)
+			}
+		}
+	}
+	count(g)
+	buf := make([]orb.Point, n)
+	at := 0
+	take := func(ps []orb.Point) []orb.Point {
+		if ps == nil {
+			return nil
+		}
+		s := buf[at : at+len(ps)]
+		copy(s, ps)
+		at += len(ps)
+		return s
+	}
+	var cp func(g orb.Geometry) orb.Geometry
+	cp = func(g orb.Geometry) orb.Geometry {
+		switch v := g.(type) {
+		case orb.MultiPoint:
+			return orb.MultiPoint(take(v))
+		case orb.LineString:
+			return orb.LineString(take(v))
+		case orb.Ring:
+			return orb.Ring(take(v))
+		case orb.MultiLineString:
+			out := make(orb.MultiLineString, len(v))
+			for i := range v {
+				out[i] = orb.LineString(take(v[i]))
+			}
+			return out
+		case orb.Polygon:
+			out := make(orb.Polygon, len(v))
+			for i := range v {
+				out[i] = orb.Ring(take(v[i]))
+			}
+			return out
+		case orb.MultiPolygon:
+			out := make(orb.MultiPolygon, len(v))
+			for i := range v {
+				out[i] = cp(v[i]).(orb.Polygon)
+			}
+			return out
+		case orb.Collection:
+			out := make(orb.Collection, len(v))
+			for i := range v {
+				out[i] = cp(v[i])
+			}
+			return out
+		}
+		return g
+	}
+	return cp(g)
+}
